@@ -13,7 +13,12 @@
    Convention: [NV_Cxx_name] instantiates [Cxx_name] (several theorems when the
    name says so).  Equalities between rationals are decided by [qc]
    (boolean comparison, computed), because two equal [Qc] values may carry
-   syntactically different canonicity proofs. *)
+   syntactically different canonicity proofs.  Every example is closed under
+   the global context (see the Print Assumptions at the end), except the four
+   of the last section, which instantiate the real-number theorems (C16,
+   C04_R, C06_R, C07_R) and inherit the axioms of the real numbers.
+   Not witnessed: the exactness hypothesis of C17_spec (see the comment at
+   C17). *)
 From Coq Require Import List NArith ZArith Arith Bool QArith Qcanon Lia.
 From BSpl Require Import Scalar Outcome Support Poly Spline Ops Forms Generator Interp Spec Spec_Ops Spec_Gen Proofs_Support Proofs_Scalar Proofs_Poly Proofs_Binom Proofs_Eval Proofs_Outcome Proofs_Spline Proofs_Forms Proofs_Ops Proofs_Forms2 Proofs_Interp Proofs_Pred Proofs_Gen Instances Instances_Ext Proofs_Valid Solver Pool Quad Proofs_Pool Proofs_Quad Proofs_Sites Proofs_Threads Proofs_Updates Examples Proofs_Examples Proofs_SupportGen Proofs_Smooth.
 From BSpl Require Import Properties_C01 Properties_C02 Properties_C03 Properties_C04 Properties_C05 Properties_C06 Properties_C07 Properties_C08 Properties_C09 Properties_C10 Properties_C11 Properties_C12 Properties_C13 Properties_C14 Properties_C15 Properties_C17 Properties_C18 Properties_C19 Properties_C20.
